@@ -956,6 +956,255 @@ def gen_rename_case(rng, tier):
             return c
 
 
+# --------------------------------------------------------------------------------------
+# log semiring with a wide dynamic range (integer log-weights, offsets up to ±2000 nats, -inf rows)
+# --------------------------------------------------------------------------------------
+
+import math
+
+WIDE_OFFS = [0, 0, 0, 50, -50, 400, -400, 800, -800, 2000, -2000]
+NINF = float("-inf")
+
+
+def py_lse(xs):
+    """log Σ exp(x) with the maximum of exactly these terms subtracted (pure Python)."""
+    m = max(xs)
+    if m == NINF:
+        return NINF
+    return m + math.log(sum(math.exp(x - m) for x in xs))
+
+
+def py_logfold(mats):
+    cur = mats[0]
+    for m in mats[1:]:
+        S = len(cur)
+        cur = [[py_lse([cur[i][j] + m[j][k] for j in range(S)]) for k in range(S)] for i in range(S)]
+    return cur
+
+
+def gen_wide(rng, tier):
+    """Integer log-weights (exact in float64 and in the Lean max-add model) plus offsets.
+    `modes`: t per-time, b per-batch, c per-(time, curr column), p per-(time, prev row), e single entries,
+    i scattered -inf, r whole -inf rows.  The einsum-path algorithms (seq / mixed / MarkovProduct) only get
+    patterns that cannot make funsor's per-operand stabilisation underflow (finding KF-logeinsum-underflow);
+    the naive path gets everything."""
+    algo = rng.choice(["naive", "naive", "seq", "mixed", "mixed", "markov-eager", "markov-lazy"])
+    T = rng.randint(1, 8 if tier == "quick" else 12)
+    S = rng.choice([2, 2, 3])
+    B = rng.choice([0, 0, 2, 3])
+    if algo == "naive":
+        modes = set(m for m in "tbcpeir" if rng.random() < 0.5)
+    else:
+        modes = set(rng.choice([("t",), ("t", "b"), ("t", "c"), ("b", "c"), ("t", "p"), ("b", "p"), ("t", "i"),
+                                ("t", "b", "i"), ("b",), ("c",), ("p",)]))
+    shape = (T,) + ((B,) if B else ()) + (S, S)
+    d = np.array([rng.choice([-2, -1, 0, 1, 2, 3]) for _ in range(int(np.prod(shape)))], dtype=np.float64).reshape(shape)
+    v = d if B else d[:, None]            # view [T, B or 1, S, S]
+    nb = B or 1
+    for t in range(T):
+        if "t" in modes:
+            v[t] += rng.choice(WIDE_OFFS)
+        for b in range(nb):
+            if "c" in modes and rng.random() < 0.4:
+                v[t, b, :, rng.randrange(S)] += rng.choice(WIDE_OFFS)
+            if "p" in modes and rng.random() < 0.4:
+                v[t, b, rng.randrange(S), :] += rng.choice(WIDE_OFFS)
+            if "e" in modes and rng.random() < 0.4:
+                v[t, b, rng.randrange(S), rng.randrange(S)] += rng.choice(WIDE_OFFS)
+            if "i" in modes:
+                for pp in range(S):
+                    for cc in range(S):
+                        if rng.random() < 0.15:
+                            v[t, b, pp, cc] = NINF
+            if "r" in modes and rng.random() < 0.2:
+                v[t, b, rng.randrange(S), :] = NINF
+    if "b" in modes:
+        for b in range(nb):
+            v[:, b] += rng.choice(WIDE_OFFS)
+    k = rng.randint(1, T) if algo == "mixed" else None
+    return dict(T=T, S=S, B=B, algo=algo, k=k, modes=sorted(modes), data=d)
+
+
+WIDE_PY = """
+# replay for C10: {algo} (logaddexp, add) on integer log-weights with a wide dynamic range
+import math
+import numpy as np
+from collections import OrderedDict
+import funsor.ops as ops
+from funsor.domains import Bint
+from funsor.tensor import Tensor
+from funsor.terms import Variable
+from funsor.interpretations import lazy
+from funsor.interpreter import reinterpret
+from funsor.sum_product import *
+inf = float("inf")
+data = np.array({data}, dtype=np.float64)
+T, B, S = {T}, {B}, {S}
+inputs = OrderedDict([("time", Bint[T])] + ([("b", Bint[B])] if B else []) + [("p", Bint[S]), ("c", Bint[S])])
+trans = Tensor(data, inputs); tv = Variable("time", Bint[T]); step = {{"p": "c"}}
+algo, k = "{algo}", {k}
+if algo == "naive": r = naive_sequential_sum_product(ops.logaddexp, ops.add, trans, tv, step)
+elif algo == "seq": r = sequential_sum_product(ops.logaddexp, ops.add, trans, tv, step)
+elif algo == "mixed": r = mixed_sequential_sum_product(ops.logaddexp, ops.add, trans, tv, step, num_segments=k)
+elif algo == "markov-eager": r = MarkovProduct(ops.logaddexp, ops.add, trans, tv, step)
+else:
+    with lazy: r = MarkovProduct(ops.logaddexp, ops.add, trans, tv, step)
+    r = reinterpret(r)
+def lse(xs):
+    m = max(xs)
+    return m if m == -inf else m + math.log(sum(math.exp(x - m) for x in xs))
+FAILS = False
+for b in range(B or 1):
+    mats = [(data[t, b] if B else data[t]).tolist() for t in range(T)]
+    cur = mats[0]
+    for m in mats[1:]:
+        cur = [[lse([cur[i][j] + m[j][kk] for j in range(S)]) for kk in range(S)] for i in range(S)]
+    got = r(b=b) if B and "b" in r.inputs else r
+    got = np.broadcast_to(got.align(tuple(n for n in ("p", "c") if n in got.inputs)).data, (S, S)) if got.inputs else np.full((S, S), got.data)
+    for i in range(S):
+        for kk in range(S):
+            e, g = cur[i][kk], float(got[i, kk])
+            if not ((e == -inf and g == -inf) or (math.isfinite(g) and e != -inf and abs(g - e) <= 1e-8 * max(1.0, abs(e)))):
+                FAILS = True
+print("FAILS =", FAILS)
+"""
+
+
+def check_wide(ctx, c, use_driver=True):
+    T, S, B, algo = c["T"], c["S"], c["B"], c["algo"]
+    d = c["data"]
+    inputs = OrderedDict([("time", Bint[T])] + ([("b", Bint[B])] if B else []) + [("p", Bint[S]), ("c", Bint[S])])
+    trans = Tensor(d, inputs)
+    tv = Variable("time", Bint[T])
+    step = {"p": "c"}
+    args = (ops.logaddexp, ops.add, trans, tv, step)
+    ctx.count(f"wide:algo={algo}")
+    ctx.count("wide:modes=" + "".join(c["modes"]))
+    wit = dict(T=T, S=S, B=B, algo=algo, k=c["k"], modes=c["modes"], data=d.tolist())
+    try:
+        with np.errstate(all="ignore"):
+            if algo == "naive":
+                r = naive_sequential_sum_product(*args)
+            elif algo == "seq":
+                r = sequential_sum_product(*args)
+            elif algo == "mixed":
+                r = mixed_sequential_sum_product(*args, num_segments=c["k"])
+            elif algo == "markov-eager":
+                r = MarkovProduct(*args)
+            else:
+                with lazy:
+                    r = MarkovProduct(*args)
+                r = reinterpret(r)
+    except (AssertionError, NotImplementedError, ValueError, KeyError) as e:
+        ctx.count(f"wide:declined-{type(e).__name__}")
+        if use_driver:
+            ctx.fail("correspondence", "C10.wide-decline-mismatch", witness=wit, expected="a value",
+                     got=f"declined: {type(e).__name__}")
+        return
+    order = ([("b", B)] if B else []) + [("p", S), ("c", S)]
+    try:
+        tab = table(r, order)
+    except (KeyError, ValueError) as e:
+        ctx.fail("input", "C10.wide-inputs", witness=wit, got=str(e), expected=str(order))
+        return
+    if tab is None:
+        ctx.count("wide:lazy")
+        ctx.case(nontrivial_key=None)
+        return
+    if not B:
+        tab = tab[None]
+    finite_seen = False
+    for b in range(B or 1):
+        mats = [(d[t, b] if B else d[t]).tolist() for t in range(T)]
+        oracle = py_logfold(mats)
+        # Lean model in the max-add semiring (exact on integers): M = best path; the log-semiring value L
+        # satisfies M <= L <= M + (T-1) log S, and L is finite iff M is.
+        if use_driver:
+            xm = [[[exact(np.float64(x)) for x in row] for row in m] for m in mats]
+            cmd = {"naive": "naive", "seq": "scan", "markov-eager": "scan", "markov-lazy": "scan"}.get(algo)
+            req = f"C10 mixed max-add {c['k']} {sx(xm)}" if algo == "mixed" else f"C10 {cmd} max-add {sx(xm)}"
+            a = ctx.driver.ask([req, f"C10 fold max-add {sx(xm)}"])
+            mk, mv = parse_mat(a[0])
+            fk, fv = parse_mat(a[1])
+            if mk != "value" or fk != "value" or not mats_equal(mv, fv, 0):
+                ctx.infra_errors.append(f"driver answered {a} on a wide-range case")
+                return
+        slack = (T - 1) * math.log(S)
+        for i in range(S):
+            for kk in range(S):
+                e, g = oracle[i][kk], float(tab[b, i, kk])
+                ok = (e == NINF and g == NINF) or (e != NINF and math.isfinite(g)
+                                                    and abs(g - e) <= 1e-8 * max(1.0, abs(e)))
+                if ok and use_driver:
+                    M = fv[i][kk]
+                    if isinstance(M, float):       # -inf
+                        ok = g == NINF
+                    else:
+                        ok = math.isfinite(g) and float(M) - 1e-6 <= g <= float(M) + slack + 1e-6
+                if not ok:
+                    ctx.fail("input", f"C10.wide-{algo}-ne-fold", witness=wit,
+                             expected=f"[{b}][{i}][{kk}] = {e}" + (f" (max-add model {fv[i][kk]})" if use_driver else ""),
+                             got=str(g),
+                             python=WIDE_PY.format(algo=algo, data=repr(d.tolist()).replace("inf", "inf"), T=T, B=B,
+                                                   S=S, k=c["k"]))
+                    return
+                finite_seen |= e != NINF
+    spread = float(np.nanmax(np.where(np.isfinite(d), d, np.nan)) - np.nanmin(np.where(np.isfinite(d), d, np.nan))) \
+        if np.isfinite(d).any() else 0.0
+    ctx.count("wide:spread>745" if spread > 745 else "wide:spread<=745")
+    ctx.case(sample=dict(kind="wide-log", T=T, S=S, B=B, algo=algo, k=c["k"], modes=c["modes"]),
+             nontrivial_key=("wide", T, S, B, algo, c["k"], d.tobytes()) if (T >= 2 and finite_seen and spread > 745) else None)
+
+
+def check_wide_reduce(ctx, rng):
+    """The Tensor route: t.reduce(ops.logaddexp, vars) (ops.logsumexp) on wide-range data vs per-cell lse."""
+    nd = rng.randint(1, 3)
+    sizes = [rng.choice([2, 3, 4]) for _ in range(nd)]
+    names = [f"v{i}" for i in range(nd)]
+    d = np.array([rng.choice([-2, -1, 0, 1, 2, 3]) + rng.choice(WIDE_OFFS) for _ in range(int(np.prod(sizes)))],
+                 dtype=np.float64).reshape(sizes)
+    for _ in range(rng.choice([0, 0, 1, 2])):
+        idx = tuple(rng.randrange(s) for s in sizes)
+        d[idx[:-1]] = NINF if rng.random() < 0.5 else d[idx[:-1]]
+        d[idx] = NINF
+    red = [n for n in names if rng.random() < 0.6] or [names[-1]]
+    t = Tensor(d, OrderedDict((n, Bint[s]) for n, s in zip(names, sizes)))
+    with np.errstate(all="ignore"):
+        r = t.reduce(ops.logaddexp, frozenset(red))
+    keep = [(n, s) for n, s in zip(names, sizes) if n not in red]
+    tab = table(r, keep)
+    ctx.count("wide:reduce")
+    if tab is None:
+        return
+    axes = tuple(i for i, n in enumerate(names) if n in red)
+    moved = np.moveaxis(d, axes, tuple(range(nd - len(axes), nd))).reshape(tuple(s for _, s in keep) + (-1,))
+    for idx in itertools.product(*[range(s) for _, s in keep]):
+        e = py_lse(moved[idx].tolist())
+        g = float(tab[idx])
+        if not ((e == NINF and g == NINF) or (e != NINF and math.isfinite(g) and abs(g - e) <= 1e-8 * max(1.0, abs(e)))):
+            ctx.fail("input", "C10.wide-reduce-logaddexp", witness=dict(data=d.tolist(), names=names, reduced=red),
+                     expected=f"{idx}: {e}", got=str(g))
+            return
+    ctx.case(nontrivial_key=("wide-reduce", d.tobytes(), tuple(red)))
+
+
+def logeinsum_underflow_known(ctx):
+    """Dedicated stream for KF-logeinsum-underflow (funsor/einsum/numpy_log.py stabilises each operand with its
+    own max, so terms underflow when the operands peak at different contracted indices > ~745 nats apart):
+    sequential_sum_product returns -inf where the fold is 5.  ctx.known if listed as open, else count only."""
+    d = np.array([[[NINF, 3.], [3., 2.]], [[800., 800.], [2., 1.]]])
+    t = Tensor(d, OrderedDict(time=Bint[2], p=Bint[2], c=Bint[2]))
+    with np.errstate(all="ignore"):
+        r = sequential_sum_product(ops.logaddexp, ops.add, t, Variable("time", Bint[2]), {"p": "c"})
+    got = float(table(r, [("p", 2), ("c", 2)])[0, 0])
+    reproduced = not (math.isfinite(got) and abs(got - 5.0) < 1e-9)
+    what = f"sequential_sum_product(logaddexp, add) on [[-inf,3],[3,2]] x [[800,800],[2,1]]: [0,0] = {got}, fold = 5"
+    if ctx.is_open("KF-logeinsum-underflow"):
+        ctx.known("KF-logeinsum-underflow", reproduced, what=what)
+    else:
+        ctx.count("kf-logeinsum-underflow:" + ("reproduced-unlisted" if reproduced else "not-reproduced"))
+
+
 def exhaustive_small(ctx):
     """All durations 1..12 x all num_segments for one 2x2 time-dependent transition per semiring."""
     rng = ctx.rng
@@ -983,7 +1232,9 @@ def correspond(ctx):
                 "1-2 variables (own lag sets, possibly none), sizes 1-3, optional global input, num_periods 1..3, "
                 "5 semirings; _get_shift/_shift_name vs the Lean string functions; MarkovProduct with empty step "
                 "(time-dependent and not, eager/lazy/reflect+reinterpret) and MarkovProduct(...)(**renaming) "
-                "(fresh names, prev/curr swaps, batch renames).  Non-trivial = duration >= 3, joint state "
+                "(fresh names, prev/curr swaps, batch renames); (logaddexp, add) chains and logaddexp reductions on integer "
+                "log-weights with per-time/batch/column/row/entry offsets in {0,+-50,+-400,+-800,+-2000}, -inf entries and "
+                "rows, against a per-cell-max log fold and the Lean max-add bounds.  Non-trivial = duration >= 3, joint state "
                 "size >= 2 and the implementation returned a value; distinct by full case content.")
     exhaustive_small(ctx)
     n = 400 if ctx.tier == "quick" else 6000
@@ -999,6 +1250,15 @@ def correspond(ctx):
         check_empty_step(ctx, gen_empty_step(ctx.rng, ctx.tier))
     for _ in range(120 if quick else 2000):
         check_rename(ctx, gen_rename_case(ctx.rng, ctx.tier))
+    for _ in range(220 if quick else 3000):
+        check_wide(ctx, gen_wide(ctx.rng, ctx.tier))
+    for _ in range(100 if quick else 1000):
+        check_wide_reduce(ctx, ctx.rng)
+    logeinsum_underflow_known(ctx)
+    ctx.assumptions.append("log semiring, wide dynamic range: integer log-weights with offsets up to +-2000 nats; gate = "
+                           "|impl - per-cell-max log-fold| <= 1e-8 relative, finite iff the Lean max-add model is, and "
+                           "max-add model <= impl <= model + (T-1) log S; the einsum-path algorithms only get offset "
+                           "patterns outside KF-logeinsum-underflow (per-operand stabilisation of numpy_log.einsum)")
     ctx.assumptions.append("sarkka_bilmes_product: proved equal to naive_sarkka_bilmes_product as relative-name funsors "
                            "for durations that are a multiple of the period or shorter than one period "
                            "(Props/C10/Terms.lean), on the window chain and in absolute time for every duration "
@@ -1027,5 +1287,6 @@ def search(ctx, broken):
     for _ in range(1500):
         check_empty_step(ctx, gen_empty_step(ctx.rng, ctx.tier), use_driver=False)
         check_rename(ctx, gen_rename_case(ctx.rng, ctx.tier), use_driver=False)
+        check_wide(ctx, gen_wide(ctx.rng, ctx.tier), use_driver=False)
         if len([f for f in ctx.failures if f.witness is not None]) > before:
             return
